@@ -189,7 +189,7 @@ def handleRun (args : List String) : Verdict :=
 def handleEnrun (args : List String) : Verdict :=
   match args with
   | [sid, k, nf, block, rc1, rck, nfiles, ndiff, first] =>
-    let fam := if sid.endsWith ":n" then "direct" else "mapped"
+    let fam := if sid.endsWith ":n" then "direct" else if sid.endsWith ":nd" then "direct-constant-box-dump" else if sid.endsWith ":md" then "mapped-constant-box-dump" else "mapped"
     let same := ndiff == "0" && rc1 == rck
     let name := match Votca.unhex first with | some cs => String.ofList cs | none => first
     { agree := same, propOk := same,
